@@ -345,3 +345,108 @@ Example C03_enable_freezes_memory_hyps :
   mem_commit [5; 0] (snd (mem_sync ex_tab m 1%nat [5; 0] (st, []))) = [5; 1] /\
   mem_commit [5; 0] (snd (mem_sync ex_tab (enable_mem ex_ctl m) 1%nat [5; 0] (st, []))) = [5; 0].
 Proof. repeat split; vm_compute; reflexivity. Qed.
+
+(* ================= translator unit "xfrm": the source text of hdl/_xfrm.py, regenerated on every run ================= *)
+(* Gen/XfrmGen.v is produced from the CURRENT text of amaranth/hdl/_xfrm.py (and Fragment.add_statements of hdl/_ir.py)
+   by translator/unit_xfrm.py; the theorems below say that the regenerated functions are the hand-written model of
+   Model/Xfrm.v / Model/Process.v on every input (proofs: Proofs/GenEqXfrm.v).  Guards, where present, are facts the
+   constructors of the real objects guarantee: `entries_ok` inside `frag_ok` (a statements dict has unique keys and
+   add_statements never leaves an empty list), `stmts_ok` (targets without an operator other than as_signed /
+   as_unsigned: LHSMaskCollector raises AssertionError otherwise; implied by wf_lhs), `tab_ok` and `ctl_wf` (widths
+   are not negative). *)
+From V.Proofs Require GenEqXfrm.
+From V.Gen Require XfrmGen.
+
+(* Fragment.add_statements *)
+Theorem C03_translated_add_statements d ss l : XfrmGen.frag_add_statements d ss l = add_stmts d ss l.
+Proof. exact (GenEqXfrm.gen_add_statements_eq d ss l). Qed.
+Print Assumptions C03_translated_add_statements.
+
+(* LHSMaskCollector.visit_stmt on a process body: the SignalDict holds the model's keys (first-visit order) and masks *)
+Theorem C03_translated_collector_keys ss : GenEqXfrm.stmts_ok ss = true ->
+  map fst (fold_left (fun d s => XfrmGen.lhs_visit_stmt s d) ss []) = lhs_keys ss.
+Proof. exact (GenEqXfrm.collector_keys ss). Qed.
+Print Assumptions C03_translated_collector_keys.
+Theorem C03_translated_collector_mask ss i :
+  XfrmGen.dict_get (fold_left (fun d s => XfrmGen.lhs_visit_stmt s d) ss []) i 0 = stmts_mask ss i.
+Proof. exact (GenEqXfrm.collector_mask ss i). Qed.
+Print Assumptions C03_translated_collector_mask.
+Theorem C03_translated_wf_lhs_collected e : wf_lhs e = true -> GenEqXfrm.lhs_ok e = true.
+Proof. exact (GenEqXfrm.wf_lhs_ok e). Qed.
+Print Assumptions C03_translated_wf_lhs_collected.
+
+(* LHSMaskCollector.chunks: both while loops, for ANY amount of extra fuel (they end by their conditions) *)
+Theorem C03_translated_chunks extra tab d :
+  XfrmGen.lhs_chunks_fuel extra tab d =
+  flat_map (fun p => map (fun ch => (fst p, fst ch, snd ch)) (chunks (width (sd_shape (tab (fst p)))) (snd p))) d.
+Proof. exact (GenEqXfrm.gen_chunks_eq extra tab d). Qed.
+Print Assumptions C03_translated_chunks.
+
+(* ResetInserter.on_fragment on every fragment tree and every control dict *)
+Theorem C03_translated_reset_inserter tab ctl f : tab_ok tab -> GenEqXfrm.ctl_wf ctl ->
+  GenEqXfrm.frag_ok (fun e => GenEqXfrm.stmts_ok (snd e) = true) f ->
+  XfrmGen.reset_on_fragment tab ctl f = reset_inserter tab ctl f.
+Proof. intros Ht Hc. exact (GenEqXfrm.gen_reset_on_fragment_eq tab ctl Ht Hc f). Qed.
+Print Assumptions C03_translated_reset_inserter.
+
+(* EnableInserter.on_fragment: statements and memory ports (write enable through Mux, read enable through &) *)
+Theorem C03_translated_enable_inserter ctl f : GenEqXfrm.ctl_wf ctl -> GenEqXfrm.frag_ok (fun _ => True) f ->
+  XfrmGen.enable_on_fragment ctl f = enable_inserter ctl f.
+Proof. intros Hc. exact (GenEqXfrm.gen_enable_on_fragment_eq ctl Hc f). Qed.
+Print Assumptions C03_translated_enable_inserter.
+Theorem C03_translated_enable_memory ctl m : XfrmGen.enable_on_memory ctl m = enable_mem ctl m.
+Proof. exact (GenEqXfrm.gen_enable_on_memory_eq ctl m). Qed.
+Print Assumptions C03_translated_enable_memory.
+Theorem C03_translated_reset_memory ctl m : XfrmGen.reset_on_memory ctl m = m.
+Proof. exact (GenEqXfrm.gen_reset_on_memory_eq ctl m). Qed.
+Print Assumptions C03_translated_reset_memory.
+
+(* DomainRenamer: statement domains, memory-port domains; the value / statement transformers are the identity on
+   the model's expressions (which have no ClockSignal / ResetSignal nodes) *)
+Theorem C03_translated_domain_renamer rho f : XfrmGen.rename_on_fragment rho f = domain_renamer rho f.
+Proof. exact (GenEqXfrm.gen_rename_on_fragment_eq rho f). Qed.
+Print Assumptions C03_translated_domain_renamer.
+Theorem C03_translated_renamer_values rho e s :
+  XfrmGen.rename_on_value rho e = e /\ XfrmGen.rename_on_statement rho s = s.
+Proof. split; [exact (GenEqXfrm.gen_rename_on_value_eq rho e)|exact (GenEqXfrm.gen_rename_on_statement_eq rho s)]. Qed.
+Print Assumptions C03_translated_renamer_values.
+
+(* __init__: a control dict is accepted iff it names no control for "comb" (so the `domain == "comb"` test of
+   on_fragment is implied by the lookup); a domain map iff neither side of any pair is "comb" *)
+Theorem C03_translated_control_init ctl ctl' :
+  XfrmGen.control_init_dict ctl = Some ctl' <-> ctl' = ctl /\ lookup 0%nat ctl = None.
+Proof. exact (GenEqXfrm.control_init_dict_spec ctl ctl'). Qed.
+Print Assumptions C03_translated_control_init.
+Theorem C03_translated_control_init_value sync c :
+  XfrmGen.control_init_value sync c = if Nat.eqb sync 0 then None else Some [(sync, c)].
+Proof. exact (GenEqXfrm.gen_control_init_value_eq sync c). Qed.
+Print Assumptions C03_translated_control_init_value.
+Theorem C03_translated_rename_init rho :
+  XfrmGen.rename_init_dict rho = if GenEqXfrm.rename_ok rho then Some rho else None.
+Proof. exact (GenEqXfrm.gen_rename_init_dict_eq rho). Qed.
+Print Assumptions C03_translated_rename_init.
+
+(* the guards hold of a non-trivial instance: a sliced target (partial chunks), a reset-less signal, a subfragment,
+   a memory; and the regenerated functions compute the model's answers on it *)
+Definition ex_frag : frag :=
+  Frag [(0%nat, [SAssign (ESig 0 (Sh 1 false)) (EConst 1 (Sh 1 false))]);
+        (1%nat, [SAssign (ESlice (ESig 2 s4) 1 3) (EConst 2 (Sh 2 false)); inc 3])]
+       [MI s4 2 [5] [WP 1 (ESig 5 (Sh 1 false)) (ESig 6 s4) (ESig 7 (Sh 1 false))]
+           [RP 1 (ESig 5 (Sh 1 false)) (ESig 2 s4) (ESig 8 (Sh 1 false)) [0%nat]]]
+       [Frag [(1%nat, [SSwitch (ESig 4 (Sh 1 false)) [(Some [[Some true]], [inc 2]); (None, [inc 3])]])] [] []].
+Example C03_translated_hyps :
+  tab_ok ex_tab /\ GenEqXfrm.ctl_wf ex_ctl /\ GenEqXfrm.frag_ok (fun e => GenEqXfrm.stmts_ok (snd e) = true) ex_frag /\
+  XfrmGen.reset_on_fragment ex_tab ex_ctl ex_frag = reset_inserter ex_tab ex_ctl ex_frag /\
+  XfrmGen.enable_on_fragment ex_ctl ex_frag = enable_inserter ex_ctl ex_frag /\
+  lookup 1%nat (match reset_inserter ex_tab ex_ctl ex_frag with Frag st _ _ => st end) =
+    Some [SAssign (ESlice (ESig 2 s4) 1 3) (EConst 2 (Sh 2 false)); inc 3;
+          ctl_switch (ESig 4 (Sh 1 false)) [SAssign (ESlice (ESig 2 s4) 1 3) (ESlice (EConst 3 s4) 1 3)]].
+Proof.
+  destruct C03_reset_inserter_hyps as [Ht _]. split; [exact Ht|]. split; [|split; [|split; [|split]]].
+  - intros d c. unfold lookup, ex_ctl. cbn [find fst snd]. destruct (Nat.eqb 1 d); intros H; inversion H. vm_compute. discriminate.
+  - cbn. repeat split; try (repeat constructor; cbn; intuition congruence); try (intros e [<-|[<-|[]]]; cbn; congruence);
+      try (intros e [<-|[]]; cbn; congruence).
+  - vm_compute. reflexivity.
+  - vm_compute. reflexivity.
+  - vm_compute. reflexivity.
+Qed.
